@@ -58,7 +58,10 @@ def _write_fits(regions, filename, header=None, overwrite=False):
         If True, overwrite the output file if it exists. Raises an
         `OSError` if False and the output file exists. Default is False.
     """
-    if os.path.lexists(filename) and not overwrite:
+    # astropy expands a leading "~" and also accepts file objects
+    if (isinstance(filename, (str, bytes, os.PathLike))
+            and os.path.lexists(os.path.expanduser(filename))
+            and not overwrite):
         raise OSError(f'{filename} already exists')
 
     output = _serialize_fits(regions)
